@@ -175,6 +175,9 @@ _add("C09", "A read whose first reply line is a memcached error line failed on i
 _add("C10", "UNIX-socket stacks; histories in which two calls are interrupted (every site x every site for 4x3 operation pairs).")
 _add("C12", "The empty server key is one of the server keys.")
 _add("C16", "Arguments are also passed positionally in the order of Client's signature (gat/gats excepted), noreply=None explicitly, boundary keys (empty with a prefix, at the length limit, non-ASCII, non-UTF-8 bytes), the *_multi/disconnect_all aliases, and raw_command/version/stats/flush_all/quit/close on the stacks that offer them; sessions of 3-6 calls on one object per stack are compared step by step.")
+_add("C15", "The library's default codec (nothing passed for compress/decompress) and multi-MiB compressible values; BOM and other code points codecs treat specially.")
+_add("C20", "Unicode keys that normalisation would change; the judged key as the server key of a (server_key, key) pair on get/set/get_many/set_many.")
+_add("C19", "A user-supplied hasher offering only the documented three methods in a quarter of the scenarios.")
 _add("C19", "Two nodes on one host/IP with different ports, a node replaced under its old name and port (DNS follows the advertised machine), use_vpc given as 1/0.")
 _add("C18", "The order is also (re)configured after construction through the public caches attribute, and 12-call sessions run on one FallbackClient while the caches' contents change.")
 _add("C20", "Clients whose server refuses connections are a further entry point (17 operations in rotation): an illegal key is still MemcacheIllegalInputError, not the connection error.")
